@@ -85,13 +85,23 @@ def bundle_of(length, seed):
     return bytes(((pos * 41) ^ (seed * 13) ^ (pos >> 8) ^ 0x6b) & 0xFF for pos in range(length))
 
 
-def check_send(length, mtu, obs, skip_ids=0, salt=0):
+def check_send(length, mtu, obs, skip_ids=0, salt=0, file_pos=None):
     node = BtpuNode(mtu)
     problems = []
     try:
         node.agent._tx_id = skip_ids
         bundle = bundle_of(length, length + salt * 7919)
-        node.call('send_bundle_data', dbus.ByteArray(bundle), dbus.Dictionary({'address': PEER_MAC, 'local_if': IF_NAME}, signature='sv'))
+        if file_pos is None:
+            node.call('send_bundle_data', dbus.ByteArray(bundle), dbus.Dictionary({'address': PEER_MAC, 'local_if': IF_NAME}, signature='sv'))
+        else:
+            # the in-process entry point (what a co-located BP agent uses): a file object that has just been written, or partly
+            # read, is at some position other than its start; the bundle is the whole content
+            import io
+            fobj = io.BytesIO(bundle)
+            fobj.seek(len(bundle) if file_pos < 0 else min(len(bundle), file_pos))
+            with node.sim.as_node('T'):
+                node.agent.send_bundle_fileobj(fobj, {'address': PEER_MAC, 'local_if': IF_NAME})
+            obs['fileobj_sends'] = obs.get('fileobj_sends', 0) + 1
         res = node.sim.settle(50000)
         obs['sends'] += 1
         if node.sim.world.callback_errors:
@@ -327,6 +337,11 @@ def run_case(case):
                 problems, payloads, _bundle = check_send(length, mtu, obs, skip_ids=skip)
                 note(problems, 'send', dict(length=length, mtu=mtu, first_id=skip, frames=len(payloads)), 'send|%s|%s|%s' % (length, mtu, skip),
                      nontrivial=len(payloads) > 1)
+            if length in lens[2:5]:
+                for file_pos in (-1, 30, 0):
+                    problems, payloads, _bundle = check_send(length, mtu, obs, file_pos=file_pos)
+                    note(problems, 'send-fileobj', dict(length=length, mtu=mtu, file_pos=file_pos, frames=len(payloads)),
+                         'sendf|%s|%s|%s' % (length, mtu, file_pos), nontrivial=len(payloads) > 1)
     elif kind == 'oracle':
         # segment sets built by the independent encoder (another sender implementation), incl. a single-segment transfer
         for nseg in (1, 2, 3, 4):
